@@ -1514,6 +1514,15 @@ where
             match **unsafe { raw_node.deref() } {
                 BinEntry::Moved => {
                     table = self.help_transfer(table, guard);
+                    // the table we were handed may still be under construction. `transfer`
+                    // stores a migrated bin there a moment before it replaces the bin of the
+                    // previous table by the forwarding marker, and the two share nodes and all
+                    // values: if we swept (and retired) such a bin now, readers of the previous
+                    // table - still the current one - could reach freed memory. so wait until
+                    // every bin has been handed over.
+                    while self.next_table.load(Ordering::SeqCst, guard) == table {
+                        std::thread::yield_now();
+                    }
                     // start from the first bin again in the new table
                     idx = 0;
                 }
